@@ -84,7 +84,7 @@ class Gen:
         if k >= 2 and (d["cr"] or not d["cs"]):
             self.emit("setenc %d 0 1 %d" % (c, d["sz"]))
             d["cr"], d["cs"] = 0, 1
-        self.emit("setscale %d %d" % (c, k))
+        self.emit("setscale %d %d%s" % (c, k, " 0" if self.rng.random() < 0.3 else ""))
         tw, th = self.W // k, self.H // k
         if (tw, th) == (self.W, self.H):
             d.update(scaled=False, sw=tw, sh=th)
@@ -355,17 +355,25 @@ def py_oracle(script, plain, orc):
     final = {}
     nscr, extfail, hookbroken = -1, -1, False   # the application's screen-layout hooks
     gone = set()
+    fresh = {}          # client -> its last state line was printed after the last operation (so it is current)
+    rescaled = {}       # client -> SetScale accepted, announcement by size message outstanding
+    owed = {}           # client -> refusal code of its own SetDesktopSize, sent while it used ExtendedDesktopSize and
+                        #           not yet answered (dropped on anything that legitimately consumes / redirects it)
     for op, ob in zip(ops, plain):
         t = op.split()
         k = t[0]
+        if k != "state":
+            was_fresh, fresh = fresh, {}
         if ob == "bad-op":
             continue
         if k == "screen":
             size = (int(t[1]), int(t[2]))
         elif k == "setenc":
             cap[t[1]] = int(t[4])
+            owed.pop(t[1], None)
             if not int(t[4]):
                 need_size.pop(t[1], None)
+                rescaled.pop(t[1], None)
         elif k == "hook":
             hook = (int(t[1]), int(t[2]))
         elif k == "nscr":
@@ -381,6 +389,7 @@ def py_oracle(script, plain, orc):
             if k == "sdstrunc" and ob != "closed":
                 return "client %s survived a truncated SetDesktopSize: %s" % (t[1], ob)
         elif k == "emit":
+            owed.pop(t[1], None)
             if ob.endswith("closed"):
                 final.pop(t[1], None)
             if int(t[2]):
@@ -398,6 +407,10 @@ def py_oracle(script, plain, orc):
             if ns > 0:
                 code = hook[1] if hook[0] else None      # None: library default = refusal
                 answer[c] = code
+                if code != 0 and cap.get(c, 0) & 2:
+                    owed[c] = code
+                else:
+                    owed.pop(c, None)
                 if code == 0:
                     for o in cap:
                         if o != c:
@@ -418,6 +431,29 @@ def py_oracle(script, plain, orc):
                 need_size.pop(c, None)
                 answer.pop(c, None)
                 other_ok.pop(c, None)
+                rescaled.pop(c, None)
+                owed.pop(c, None)
+            if k == "update" and c not in gone and not hookbroken and was_fresh.get(c):
+                # liveness, on an IDLE screen too: with an update request outstanding (the implementation's own
+                # requestedRegion, dumped right before this update) a refused SetDesktopSize of an
+                # ExtendedDesktopSize client is answered NOW, and an accepted SetScale / pending size change
+                # is announced NOW to a client with resize support - no pixel change is needed for that
+                st0 = last_state.get(c, {})
+                outstanding = st0.get("R", "[]") != "[]"
+                kinds = [m["k"] for m in parse_msgs(ob)]
+                if outstanding and c in owed and cap.get(c, 0) & 2 and "ext" not in kinds:
+                    return ("client %s: its refused SetDesktopSize (status %s) is not answered although an update request is outstanding: update gave %r"
+                            % (c, "refusal by default" if owed[c] is None else owed[c], ob))
+                if outstanding and rescaled.get(c) and cap.get(c, 0) and not ("size" in kinds or "ext" in kinds):
+                    return "client %s: its accepted SetScale is not announced although an update request is outstanding: update gave %r" % (c, ob)
+                if outstanding and need_size.get(c) and not ("size" in kinds or "ext" in kinds):
+                    return "client %s: the new framebuffer size is not announced although an update request is outstanding: update gave %r" % (c, ob)
+            if k == "setscale":
+                owed.pop(c, None)      # (for a client without resize support SetScale consumes the pending flag)
+                # accepted = the scaled geometry the implementation reports afterwards differs, or the viewer got no
+                # ResizeFrameBuffer although it has resize support (then the size message is owed)
+                if cap.get(c, 0) and "rsz" not in [m["k"] for m in parse_msgs(ob)] and ob != "closed":
+                    rescaled[c] = "?"      # confirmed by the pending flag in the next state line
             for m in parse_msgs(ob):
                 if m["k"] == "?":
                     return "undecodable message summary %r" % m["raw"]
@@ -433,6 +469,8 @@ def py_oracle(script, plain, orc):
                     return "client %s announced resize support but received pixel data before the size message: %s" % (c, ob)
                 if m["k"] in ("size", "ext"):
                     need_size.pop(c, None)
+                    rescaled.pop(c, None)
+                    owed.pop(c, None)
                 if m["k"] == "size" and cap.get(c, 0) & 2:
                     return "client %s uses ExtendedDesktopSize but was sent a plain NewFBSize" % c
                 if m["k"] == "ext" and hookbroken:
@@ -462,6 +500,13 @@ def py_oracle(script, plain, orc):
             if size and (sc[0], sc[1]) != size:
                 return "screen is %dx%d but the application installed %dx%d" % (sc[0], sc[1], size[0], size[1])
             last_state[t[1]] = d
+            fresh[t[1]] = True
+            if rescaled.get(t[1]) == "?":
+                # a refused scale factor (reduces a dimension to 0) raises nothing: only an accepted one is owed
+                if d.get("p") == "1":
+                    rescaled[t[1]] = True
+                else:
+                    rescaled.pop(t[1], None)
             if t[1] not in gone:
                 final[t[1]] = ob
     # after the final full requests every client must be idle (and `!inv` said its picture is the framebuffer)
